@@ -1,6 +1,6 @@
 /* Scalar kernels: byte assembly (C02 C12 C19), derived header counts (C05). */
 #include "vf_harness.h"
-size_t vf_gk, vf_gj, vf_gc;
+VF_GHOSTS
 
 /* ---------------------------------------------------------------- c3d::hex2uint */
 unsigned int contract_c3d__hex2uint(struct c3d *self, const char *val, unsigned int len)
